@@ -1,4 +1,35 @@
 use super::Value;
+use std::cmp::Ordering;
+
+/// Compares an integer with a float as the numbers they denote (no rounding of the integer
+/// to the nearest float). `None` when the float is NaN.
+pub(super) fn cmp_int_float(int_value: i64, float_value: f64) -> Option<Ordering> {
+    if float_value.is_nan() {
+        return None;
+    }
+    // every i64 lies in [-2^63, 2^63)
+    if float_value >= 9_223_372_036_854_775_808.0 {
+        return Some(Ordering::Less);
+    }
+    if float_value < -9_223_372_036_854_775_808.0 {
+        return Some(Ordering::Greater);
+    }
+    let whole = float_value.trunc();
+    // `whole` is an integer in [-2^63, 2^63), so the conversion is exact
+    match int_value.cmp(&(whole as i64)) {
+        Ordering::Equal => {
+            let frac = float_value - whole;
+            if frac > 0.0 {
+                Some(Ordering::Less)
+            } else if frac < 0.0 {
+                Some(Ordering::Greater)
+            } else {
+                Some(Ordering::Equal)
+            }
+        }
+        ord => Some(ord),
+    }
+}
 
 pub(super) fn value_as_f64(value: &Value) -> Option<f64> {
     match value {
